@@ -169,10 +169,9 @@ def judge(case: dict, ev: T.Optional[Evidence] = None, strict_known: bool = Fals
         return Failure(f'{fmt}/unexpected-MesonException', case,
                        f'format {fmt}: template {short(tpl)} with {data!r} was rejected: {val}; reference renders {short(R.text())}')
     got, missing = val
-    if not strict_known and (K_RESCAN in known or K_SKIP in known):
+    if not strict_known and K_RESCAN in known:     # (K_SKIP was a known finding, fixed in /repo: enforced everywhere)
         if ev is not None:
-            for k in sorted(known & {K_RESCAN, K_SKIP}):
-                ev.exclude('known finding %s: output not compared' % k)
+            ev.exclude('known finding %s: output not compared' % K_RESCAN)
         return None
     m = refconf.match(R, got)
     R_used = R
@@ -185,7 +184,7 @@ def judge(case: dict, ev: T.Optional[Evidence] = None, strict_known: bool = Fals
         sig = f'{fmt}/text:{m.kind}'
         if strict_known and K_RESCAN in known and m.kind == 'mesondefine':
             sig = K_RESCAN
-        if strict_known and K_SKIP in known:
+        if K_SKIP in known and K_RESCAN not in known:
             sig = K_SKIP
         return Failure(sig, case,
                        f'format {fmt}, data {data!r}\n template {short(tpl)}\n expected {short(R.text())}\n got      {short(got)}\n'
@@ -196,15 +195,11 @@ def judge(case: dict, ev: T.Optional[Evidence] = None, strict_known: bool = Fals
                        f'(expected {short(R.text())}; property: "copies every other byte (including line endings) unchanged")')
     required = set(R_used.missing)
     allowed = required | R_used.missing_def | R_used.missing_opt
-    if strict_known:
-        required |= R_used.missing_def
-    elif R_used.missing_def - missing:
-        if ev is not None:
-            ev.exclude('known finding %s: names inside a #cmakedefine value not required in the missing set' % K_DEFMISS)
+    required |= R_used.missing_def     # (K_DEFMISS was a known finding, fixed in /repo: enforced everywhere)
     if not required <= missing:
         lost = sorted(required - missing)
         sig = f'{fmt}/missing-set:unreported'
-        if strict_known and set(lost) <= R_used.missing_def:
+        if set(lost) <= R_used.missing_def:
             sig = K_DEFMISS
         return Failure(sig, case,
                        f'format {fmt}: template {short(tpl)} with {data!r}: undefined name(s) {lost} not reported '
@@ -323,7 +318,7 @@ def gen_case(rnd: random.Random, fmt: str) -> dict:
     if rnd.random() < 0.3:
         data['E'] = ''
     style = rnd.choice(['lf', 'lf', 'crlf', 'cr', 'mixed', 'mixed'])
-    sepp = 0.0 if fmt == 'meson' else 0.6    # cmake formats: keep most placeholders apart (known finding: ...-after-empty-value-skipped)
+    sepp = 0.0 if fmt == 'meson' else 0.15   # cmake formats: a separator between some placeholders
     frags: T.List[str] = []
     nlines = rnd.randint(1, 5)
     for li in range(nlines):
@@ -489,7 +484,7 @@ def _enum_shard(shard: T.Tuple[str, T.Tuple[str, ...], int], ev: Evidence, fails
                 continue
             n += 1
             R = refconf.render(tpl, ENUM_DATA, fmt, 'empty')
-            if R.grey or R.known:
+            if R.grey or K_RESCAN in R.known:
                 nex += 1
             elif len(R.kinds) >= 2:
                 nt += 1
@@ -810,7 +805,7 @@ def _project_shard(shard: T.Tuple[int, int, int], ev: Evidence, fails: T.List[Fa
                 if cmake_value_hazard(c['fmt'], c['data']) or not project_ok(c):
                     continue
                 R = refconf.render(''.join(c['frags']), c['data'], c['fmt'], 'empty')
-                if R.grey or R.known:
+                if R.grey or K_RESCAN in R.known:
                     ev.exclude('configure_file sample: undocumented region or known-finding class')
                     continue
                 if R.error:
